@@ -259,6 +259,50 @@ func vc17Setup(t *rapid.T, types []string, maxSteps int) *vc17Chan {
 		c.fail(t, "harness: HTLCs still live after final resolution")
 	}
 
+	// Balance shaping: one more payment that lands the receiver's balance
+	// within +-2 sat of a dust boundary -- its own channel dust limit
+	// (output trimming) or a script dust limit (294/330/354 sat: which
+	// closing_complete signature field the RBF flow uses).
+	shaped := ""
+	if rapid.IntRange(0, 2).Draw(t, "shape") == 0 {
+		y := rapid.IntRange(0, 1).Draw(t, "shapeReceiver")
+		full := [2]int{len(s.M.U[0]), len(s.M.U[1])}
+		cur := int64(s.Expect(0, s.M.RevsSent[0], full).Stored[y])
+		targets := []int64{int64(p.Dust[y]), 294, 330, 354}
+		target := targets[rapid.IntRange(0, len(targets)-1).Draw(t,
+			"shapeTarget")] + int64(rapid.IntRange(-2, 2).Draw(t,
+			"shapeDelta"))
+		amt := target*1000 + int64(rapid.IntRange(0, 999).Draw(t,
+			"shapeMsat")) - cur
+		if amt > 0 {
+			ok, err := s.DoAdd(1-y, lnwire.MilliSatoshi(amt), 510, nil)
+			if err != nil {
+				c.fail(t, "%v", err)
+			}
+			if err := s.Drain(s.CheckAll); err != nil {
+				c.fail(t, "%v", err)
+			}
+			if ok && s.Aborted == "" {
+				for _, h := range s.Resolvable(y) {
+					err := s.DoResolve(y, h, chansim.USettle)
+					if err != nil {
+						c.fail(t, "%v", err)
+					}
+				}
+				if err := s.Drain(s.CheckAll); err != nil {
+					c.fail(t, "%v", err)
+				}
+				shaped = "balance_shaped_to_dust_boundary"
+			}
+			if s.Aborted != "" {
+				return nil
+			}
+			if len(s.LiveOffered(0))+len(s.LiveOffered(1)) != 0 {
+				c.fail(t, "harness: shaping HTLC still live")
+			}
+		}
+	}
+
 	full := [2]int{len(s.M.U[0]), len(s.M.U[1])}
 	exp := s.Expect(0, s.M.RevsSent[0], full)
 	for z := 0; z < 2; z++ {
@@ -275,6 +319,9 @@ func vc17Setup(t *rapid.T, types []string, maxSteps int) *vc17Chan {
 	}
 	for l := range s.Labels {
 		c.labels = append(c.labels, "sim:"+l)
+	}
+	if shaped != "" {
+		c.labels = append(c.labels, shaped)
 	}
 	sort.Strings(c.labels)
 	for z := 0; z < 2; z++ {
